@@ -32,4 +32,7 @@ class CellRangeSet""")]},
     {"id": "c18-n-blank-predicate-by-type", "expect": "silent", "edits": [(X, '        return cell.value is None or str(cell.value).strip() == ""', '        value = cell.value\n        if value is None:\n            return True\n        return isinstance(value, str) and not value.strip()')]},
     {"id": "c18-ladder-starts-at-known-column", "expect": "fire", "edits": [(X, "                        (pos for pos, name in enumerate(cols_names) if name),", "                        (pos for pos, name in enumerate(cols_names) if name in known_cols_names),")]},
     {"id": "c18-n-ladder-start-explicit-test", "expect": "silent", "edits": [(X, "                        (pos for pos, name in enumerate(cols_names) if name),", "                        (pos for pos, name in enumerate(cols_names) if name != ''),")]},
+    # `or` used for its value inside the predicate
+    {"id": "c18-falsy-or-default", "expect": "fire", "edits": [(X, '        return cell.value is None or str(cell.value).strip() == ""\n', '        return not str(cell.value or "").strip()\n')]},
+    {"id": "c18-n-none-default-ifexp", "expect": "silent", "edits": [(X, '        return cell.value is None or str(cell.value).strip() == ""\n', '        return not str("" if cell.value is None else cell.value).strip()\n')]},
 ]
